@@ -1,6 +1,7 @@
 import DuneVerif.Proofs.C02Closed
 import DuneVerif.Proofs.C02Main
 import DuneVerif.Proofs.C02Minor
+import DuneVerif.Proofs.C02Top
 import Mathlib.LinearAlgebra.Matrix.NonsingularInverse
 import Mathlib.LinearAlgebra.Matrix.ToLinearEquiv
 import Mathlib.Algebra.Order.Field.Rat
@@ -216,31 +217,28 @@ returned for singular matrices. -/
 theorem detLU_eq_det {absval : K → Q} (habs : AbsLike absval) (A : Mat n K) :
     detLU true absval A = (toMatrix A).det := by
   unfold detLU
-  rw [forUp_mul_prod]
   by_cases hok : (luDecomp true absval detFunc A (1 : K)).ok = true
   · obtain ⟨σ, hA, hs⟩ := (lu_det_run true habs A).1 hok
-    rw [if_pos hok, hs, AInv_det hA]
+    rw [if_pos hok, forUp_mul_prod, hs, AInv_det hA]
   · have hok' : (luDecomp true absval detFunc A (1 : K)).ok = false := by simpa using hok
-    rw [if_neg hok, zero_mul, (lu_det_run true habs A).2 hok' rfl]
+    rw [if_neg hok, (lu_det_run true habs A).2 hok' rfl]
 
 /-- without pivoting the determinant is right whenever the unpivoted elimination is defined -/
 theorem detLU_nopivot_eq_det {absval : K → Q} (habs : AbsLike absval) (A : Mat n K)
     (hok : (luDecomp false absval detFunc A (1 : K)).ok = true) :
     detLU false absval A = (toMatrix A).det := by
   unfold detLU
-  rw [forUp_mul_prod]
   obtain ⟨σ, hA, hs⟩ := (lu_det_run false habs A).1 hok
-  rw [if_pos hok, hs, AInv_det hA]
+  rw [if_pos hok, forUp_mul_prod, hs, AInv_det hA]
 
 /-- **singular ⇒ determinant 0**, with and without pivoting -/
 theorem detLU_singular (piv : Bool) {absval : K → Q} (habs : AbsLike absval) (A : Mat n K)
     (hdet : (toMatrix A).det = 0) : detLU piv absval A = 0 := by
   unfold detLU
-  rw [forUp_mul_prod]
   by_cases hok : (luDecomp piv absval detFunc A (1 : K)).ok = true
   · obtain ⟨σ, hA, _⟩ := (lu_det_run piv habs A).1 hok
     exact absurd hdet (AInv_det_ne_zero hA)
-  · rw [if_neg hok, zero_mul]
+  · rw [if_neg hok]
 
 /-- **`detLU_zero_iff_singular`** -/
 theorem detLU_zero_iff_singular {absval : K → Q} (habs : AbsLike absval) (A : Mat n K) :
@@ -352,6 +350,151 @@ example : (toMatrix (Mat.ofFn (fun _ _ => (1 : ℚ)) : Mat 4 ℚ)).det = 0 := by
   funext c; simp
 
 end LU
+
+/-! ## Part 2b: the member functions as a whole — size dispatch (closed forms for `rows() ∈ {1,2,3}`, LU otherwise),
+both pivoting modes, default arguments.  These are the clauses of the property as stated, for **every** `n`
+(`n = 0` takes the LU path with empty loops, as in the code). -/
+section Whole
+variable {K Q : Type} [Field K] [LinearOrder Q] [Zero Q]
+
+/-- the size tests found in the source are exactly the ones `DV.C02.determinant / solve / invert` dispatch on -/
+theorem dispatch_sizes : Gen.closedFormSizes = [1, 2, 3] := by decide
+
+/-- the default arguments found in the source: pivoting is on when the caller says nothing -/
+theorem default_pivoting : Gen.solveDefaultPivoting = true ∧ Gen.invertDefaultPivoting = true ∧
+    Gen.determinantDefaultPivoting = true := by decide
+
+/-- **determinant returns det A** (pivoting on; every n; singular matrices included: the value is then 0) -/
+theorem determinant_spec {absval : K → Q} (habs : AbsLike absval) :
+    ∀ {n : Nat} (A : Mat n K), determinant true absval A = (toMatrix A).det
+  | 0, A => detLU_eq_det habs A
+  | 1, A => det1_eq (toMatrix A)
+  | 2, A => det2_eq (toMatrix A)
+  | 3, A => det3_eq (toMatrix A)
+  | _ + 4, A => detLU_eq_det habs A
+
+/-- **… and without pivoting whenever the unpivoted elimination is defined** (for n ≤ 3 unconditionally) -/
+theorem determinant_nopivot_spec {absval : K → Q} (habs : AbsLike absval) :
+    ∀ {n : Nat} (A : Mat n K), (∀ k : Fin n, leadingMinor A k ≠ 0) →
+      determinant false absval A = (toMatrix A).det
+  | 0, A, h => detLU_nopivot_of_minors habs A h
+  | 1, A, _ => det1_eq (toMatrix A)
+  | 2, A, _ => det2_eq (toMatrix A)
+  | 3, A, _ => det3_eq (toMatrix A)
+  | _ + 4, A, h => detLU_nopivot_of_minors habs A h
+
+/-- **singular ⇒ determinant returns zero** — every n, with and without pivoting -/
+theorem determinant_singular (piv : Bool) {absval : K → Q} (habs : AbsLike absval) :
+    ∀ {n : Nat} (A : Mat n K), (toMatrix A).det = 0 → determinant piv absval A = 0
+  | 0, A, h => detLU_singular piv habs A h
+  | 1, A, h => (det1_eq (toMatrix A)).trans h
+  | 2, A, h => (det2_eq (toMatrix A)).trans h
+  | 3, A, h => (det3_eq (toMatrix A)).trans h
+  | _ + 4, A, h => detLU_singular piv habs A h
+
+/-- **nonsingular ⇒ solve (pivoting on) returns x with A x = b** — every n -/
+theorem solve_spec {absval : K → Q} (habs : AbsLike absval) :
+    ∀ {n : Nat} (A : Mat n K) (b : Vec n K), (toMatrix A).det ≠ 0 →
+      ∃ x, solve true absval A b = .ok x ∧ toMatrix A *ᵥ x.f = b.f
+  | 0, A, b, h => by
+    obtain ⟨x, hx⟩ := solveLU_nonsingular habs A b h
+    exact ⟨x, hx, solveLU_correct true habs A b x hx⟩
+  | 1, A, b, h => ⟨_, rfl, by rw [vecOf1_f]; exact solve1_correct (toMatrix A) b.f h⟩
+  | 2, A, b, h => ⟨_, rfl, by rw [vecOf2_f]; exact solve2_correct (toMatrix A) b.f h⟩
+  | 3, A, b, h => ⟨_, rfl, by rw [vecOf3_f]; exact solve3_correct (toMatrix A) b.f h⟩
+  | _ + 4, A, b, h => by
+    obtain ⟨x, hx⟩ := solveLU_nonsingular habs A b h
+    exact ⟨x, hx, solveLU_correct true habs A b x hx⟩
+
+/-- **… and without pivoting whenever the unpivoted elimination is defined** -/
+theorem solve_nopivot_spec {absval : K → Q} (habs : AbsLike absval) :
+    ∀ {n : Nat} (A : Mat n K) (b : Vec n K), (∀ k : Fin n, leadingMinor A k ≠ 0) →
+      ∃ x, solve false absval A b = .ok x ∧ toMatrix A *ᵥ x.f = b.f
+  | 0, A, b, h => solveLU_nopivot_correct habs A b h
+  | 1, A, b, h => ⟨_, rfl, by rw [vecOf1_f]; exact solve1_correct (toMatrix A) b.f (det_ne_zero_of_minors habs A h)⟩
+  | 2, A, b, h => ⟨_, rfl, by rw [vecOf2_f]; exact solve2_correct (toMatrix A) b.f (det_ne_zero_of_minors habs A h)⟩
+  | 3, A, b, h => ⟨_, rfl, by rw [vecOf3_f]; exact solve3_correct (toMatrix A) b.f (det_ne_zero_of_minors habs A h)⟩
+  | _ + 4, A, b, h => solveLU_nopivot_correct habs A b h
+
+/-- whatever solve returns for a nonsingular matrix is the solution — both pivoting modes, every n
+(on the LU path the hypothesis `det ≠ 0` is not even needed: `solveLU_correct`) -/
+theorem solve_sound (piv : Bool) {absval : K → Q} (habs : AbsLike absval) :
+    ∀ {n : Nat} (A : Mat n K) (b x : Vec n K), (toMatrix A).det ≠ 0 → solve piv absval A b = .ok x →
+      toMatrix A *ᵥ x.f = b.f
+  | 0, A, b, x, _, hx => solveLU_correct piv habs A b x hx
+  | 1, A, b, x, h, hx => by
+    injection hx with hx; rw [← hx, vecOf1_f]; exact solve1_correct (toMatrix A) b.f h
+  | 2, A, b, x, h, hx => by
+    injection hx with hx; rw [← hx, vecOf2_f]; exact solve2_correct (toMatrix A) b.f h
+  | 3, A, b, x, h, hx => by
+    injection hx with hx; rw [← hx, vecOf3_f]; exact solve3_correct (toMatrix A) b.f h
+  | _ + 4, A, b, x, _, hx => solveLU_correct piv habs A b x hx
+
+/-- **singular A of size four or more ⇒ solve reports FMatrixError** — with and without pivoting -/
+theorem solve_singular_ge4 (piv : Bool) {absval : K → Q} (habs : AbsLike absval) {n : Nat} (A : Mat (n + 4) K)
+    (b : Vec (n + 4) K) (hdet : (toMatrix A).det = 0) : solve piv absval A b = .fmatrixError :=
+  solveLU_singular piv habs A b hdet
+
+/-- **nonsingular ⇒ invert (pivoting on) leaves B with A B = B A = I** — every n -/
+theorem invert_spec {absval : K → Q} (habs : AbsLike absval) :
+    ∀ {n : Nat} (A : Mat n K), (toMatrix A).det ≠ 0 →
+      ∃ B, invert true absval A = .ok B ∧ toMatrix A * toMatrix B = 1 ∧ toMatrix B * toMatrix A = 1
+  | 0, A, h => by
+    obtain ⟨B, hB⟩ := invertLU_nonsingular habs A h
+    exact ⟨B, hB, invertLU_correct true habs A B hB⟩
+  | 1, A, h => ⟨_, rfl, by rw [toMatrix_matOf1]; exact invert1_correct (toMatrix A) h⟩
+  | 2, A, h => ⟨_, rfl, by rw [toMatrix_matOf2]; exact invert2_correct (toMatrix A) h⟩
+  | 3, A, h => ⟨_, rfl, by rw [toMatrix_matOf3]; exact invert3_correct (toMatrix A) h⟩
+  | _ + 4, A, h => by
+    obtain ⟨B, hB⟩ := invertLU_nonsingular habs A h
+    exact ⟨B, hB, invertLU_correct true habs A B hB⟩
+
+/-- **… and without pivoting whenever the unpivoted elimination is defined** -/
+theorem invert_nopivot_spec {absval : K → Q} (habs : AbsLike absval) :
+    ∀ {n : Nat} (A : Mat n K), (∀ k : Fin n, leadingMinor A k ≠ 0) →
+      ∃ B, invert false absval A = .ok B ∧ toMatrix A * toMatrix B = 1 ∧ toMatrix B * toMatrix A = 1
+  | 0, A, h => invertLU_nopivot_of_minors habs A h
+  | 1, A, h => ⟨_, rfl, by
+      rw [toMatrix_matOf1]; exact invert1_correct (toMatrix A) (det_ne_zero_of_minors habs A h)⟩
+  | 2, A, h => ⟨_, rfl, by
+      rw [toMatrix_matOf2]; exact invert2_correct (toMatrix A) (det_ne_zero_of_minors habs A h)⟩
+  | 3, A, h => ⟨_, rfl, by
+      rw [toMatrix_matOf3]; exact invert3_correct (toMatrix A) (det_ne_zero_of_minors habs A h)⟩
+  | _ + 4, A, h => invertLU_nopivot_of_minors habs A h
+
+/-- **singular A of size four or more ⇒ invert reports FMatrixError** — with and without pivoting -/
+theorem invert_singular_ge4 (piv : Bool) {absval : K → Q} (habs : AbsLike absval) {n : Nat} (A : Mat (n + 4) K)
+    (hdet : (toMatrix A).det = 0) : invert piv absval A = .fmatrixError :=
+  invertLU_singular piv habs A hdet
+
+/-- the calls without the optional argument (`A.solve(x,b)`, `A.invert()`, `A.determinant()`) -/
+theorem solveDefault_spec {absval : K → Q} (habs : AbsLike absval) {n : Nat} (A : Mat n K) (b : Vec n K)
+    (hdet : (toMatrix A).det ≠ 0) : ∃ x, solveDefault absval A b = .ok x ∧ toMatrix A *ᵥ x.f = b.f :=
+  solve_spec habs A b hdet
+
+theorem invertDefault_spec {absval : K → Q} (habs : AbsLike absval) {n : Nat} (A : Mat n K)
+    (hdet : (toMatrix A).det ≠ 0) :
+    ∃ B, invertDefault absval A = .ok B ∧ toMatrix A * toMatrix B = 1 ∧ toMatrix B * toMatrix A = 1 :=
+  invert_spec habs A hdet
+
+theorem determinantDefault_spec {absval : K → Q} (habs : AbsLike absval) {n : Nat} (A : Mat n K) :
+    determinantDefault absval A = (toMatrix A).det :=
+  determinant_spec habs A
+
+/-! non-vacuity: the 4×4 example `exA` (needs a row swap) and a 2×2 one go through the whole functions -/
+example (b : Vec 4 ℚ) : ∃ x, solveDefault (fun x : ℚ => |x|) exA b = .ok x ∧ toMatrix exA *ᵥ x.f = b.f :=
+  solveDefault_spec absLike_abs_rat exA b exA_det
+example : ∃ B, invert true (fun x : ℚ => |x|) exA = .ok B ∧ toMatrix exA * toMatrix B = 1 ∧
+    toMatrix B * toMatrix exA = 1 := invert_spec absLike_abs_rat exA exA_det
+example : (toMatrix (Mat.ofFn ![![0, 1], ![1, 0]] : Mat 2 ℚ)).det ≠ 0 := by
+  rw [Matrix.det_fin_two]; simp [toMatrix]
+example : solve true (fun x : ℚ => |x|) (Mat.ofFn (fun _ _ => (1 : ℚ)) : Mat 4 ℚ) (Vec.ofFn fun _ => 1) =
+    .fmatrixError := by
+  apply solve_singular_ge4 true absLike_abs_rat (n := 0)
+  apply Matrix.det_zero_of_row_eq (i := 0) (j := 1) (by decide)
+  funext c; simp [toMatrix]
+
+end Whole
 
 /-! ## Part 3: DiagonalMatrix (non-singular clauses; `solve` divides entry-wise, there is no singularity check) -/
 section Diag
